@@ -82,6 +82,7 @@ type undoRec struct {
 	idx        int
 	added      bool
 	deletedRec bool
+	symFlag    bool
 }
 
 type World struct {
@@ -260,6 +261,31 @@ func (c *Ctx) learn(t *Term, v bool) {
 		}
 		if x := t.args[0]; !x.hasUB || ub < x.ub {
 			x.hasUB, x.ub = true, ub
+		}
+	}
+	// signed comparisons against a non-negative constant bound the unsigned value when the term is
+	// already known to be below 2^63
+	if (t.op == "bvsle" || t.op == "bvslt") && !t.args[0].isC && t.args[1].isC && v {
+		x, k := t.args[0], t.args[1].cval
+		if k < 1<<62 && x.hasUB && x.ub < 1<<63 {
+			if t.op == "bvslt" && k > 0 {
+				k--
+			}
+			if k < x.ub {
+				x.ub = k
+			}
+		}
+	}
+	if (t.op == "bvsle" || t.op == "bvslt") && t.args[0].isC && !t.args[1].isC && !v {
+		// not (K < x)  =>  x <= K ;  not (K <= x) => x < K
+		x, k := t.args[1], t.args[0].cval
+		if k < 1<<62 && x.hasUB && x.ub < 1<<63 {
+			if t.op == "bvsle" && k > 0 {
+				k--
+			}
+			if k < x.ub {
+				x.ub = k
+			}
 		}
 	}
 	if v && t.op == "and" {
@@ -812,6 +838,22 @@ func (c *Ctx) verifCall(fr *Frame, fn *ssa.Function, args []Value) (Value, bool)
 	case "verifAllocBudget":
 		c.allocLimit = args[0].(*Term)
 		return nil, true
+	case "verifFillBytes":
+		tag := tagOf(0)
+		p := args[1].(Slice)
+		n := args[2].(*Term)
+		mx := int(args[3].(*Term).cval)
+		for i := 0; i < mx && i < p.cap; i++ {
+			t := tb.Sym(fmt.Sprintf("n%d_%s", len(c.inputs), tag), S8)
+			c.inputs = append(c.inputs, Input{Tag: tag, T: t})
+			slot := &p.arr.elems[p.off+i]
+			old, _ := (*slot).(*Term)
+			if old == nil {
+				old = tb.Const(0, S8)
+			}
+			c.assign(slot, tb.Ite(tb.Bin("bvslt", tb.Int(int64(i), 64), n), t, old))
+		}
+		return nil, true
 	case "verifIteString":
 		return c.iteVal(args[0].(*Term), args[1], args[2]), true
 	case "verifIte64":
@@ -1010,6 +1052,8 @@ func (c *Ctx) rollbackTo(mark int) {
 	for i := len(c.undo) - 1; i >= mark; i-- {
 		u := c.undo[i]
 		switch {
+		case u.symFlag:
+			u.m.symKeys = false
 		case u.p != nil:
 			*u.p = u.old
 		case u.added:
